@@ -786,6 +786,15 @@ func (r *c12Run) checkSeqs(al align.Alignment) {
 		r.viol("length-changed", fmt.Sprintf("Length()=%d, want %d", al.Length(), L))
 		return
 	}
+	// lookups by name agree with the rows: a removed sequence is gone, a kept one is found with its residues
+	for k := 0; k < n; k++ {
+		s, found := al.GetSequence(c12Names[k])
+		kept := gotKept&(1<<uint(k)) != 0
+		if found != kept || (kept && s != cs.Seqs[k]) || (al.GetSequenceIdByName(c12Names[k]) >= 0) != kept {
+			r.viol("lookup-by-name", fmt.Sprintf("sequence %s (kept=%v): GetSequence finds %v %q, GetSequenceIdByName %d", c12Names[k], kept, found, s, al.GetSequenceIdByName(c12Names[k])))
+			return
+		}
+	}
 	acc := &c12Cur
 	nr := bits.OnesCount32(gotRm)
 	if e.fractional {
@@ -993,6 +1002,8 @@ func c12CutsEnds(int) []float64 { return c12CutsEndsV }
 var (
 	c12ProfFull = &c12Profile{name: "full", siteSets: []string{"-", "A", "a", "AW", "AO"}, siteOpts: c12AllOpts, seqChars: "-AaWO", cuts: c12CutsFullC}
 	c12ProfGrid = &c12Profile{name: "grid", siteSets: []string{"A", "AW"}, siteOpts: c12AllOpts, seqChars: "A", cuts: c12CutsGrid}
+	// sets in which a character occurs twice, verbatim or after case folding
+	c12ProfDup  = &c12Profile{name: "dupset", siteSets: []string{"AA", "Aa", "AWA"}, siteOpts: c12AllOpts, seqChars: "", cuts: c12CutsFullC}
 	c12ProfEnds = &c12Profile{name: "ends", siteSets: []string{"-", "A", "AW"}, siteOpts: c12AllOpts, seqChars: "", cuts: c12CutsEnds}
 	c12ProfTieC = &c12Profile{name: "tiecol", siteSets: []string{"A"}, siteOpts: c12TieOpts, seqChars: "", cuts: c12CutsFullC}
 	c12ProfTieR = &c12Profile{name: "tierow", siteSets: nil, seqChars: "A", cuts: c12CutsFullC}
@@ -1112,6 +1123,13 @@ func c12Tasks(tier string) []mc.Task {
 	for _, a := range alphas {
 		ts = c12Block(ts, "square", a, c12Sigma6, 2, 2, c12ProfFull)
 	}
+	// (3') character sets with a repeated character: one column of 1..3 rows and 2x2 over {A,a,-,W}
+	for _, a := range alphas {
+		for n := 1; n <= 3; n++ {
+			ts = c12Block(ts, "dupcol", a, "Aa-W", n, 1, c12ProfDup)
+		}
+		ts = c12Block(ts, "dupsquare", a, "Aa-W", 2, 2, c12ProfDup)
+	}
 	// (4) exact ties and their neighbours: one column of n rows (site operations) /
 	// one row of L sites (sequence operations) over {A,-}
 	for n := colMax + 1; n <= tieMax; n++ {
@@ -1166,7 +1184,7 @@ func init() {
 		Rule: cliStreamRule[1:] + " " + "bounded-exhaustive enumeration of calls to RemoveGapSites, RemoveCharacterSites, RemoveMajorityCharacterSites, RemoveGapSeqs and RemoveCharacterSeqs on nucleotide and on protein alignments; " +
 			"W/w stands for the wildcard of the alignment's own alphabet (N/n, X/x), O for the one of the other alphabet (X, N). Quick tier [thorough tier in brackets]: " +
 			"(1) every 1-column alignment of 1..4 [1..5] rows, (2) every 1-row alignment of 2..4 [2..5] sites and (3) every 2x2 alignment over {A,a,-,W,w,O}: RemoveCharacterSites with the sets {-},{A},{a},{A,W},{A,O} x all 2^5 combinations of ends/ignoreCase/ignoreGaps/ignoreNs/reverse, RemoveMajorityCharacterSites x 2^3 (ends, ignoreGaps, ignoreNs), RemoveGapSites x ends, RemoveCharacterSeqs with each of -,A,a,W,O x 2^3 (ignoreCase, ignoreGaps, ignoreNs), RemoveGapSeqs x ignoreNs; cutoffs -1, 1.5 and, for every fraction k/m with m <= number of rows (site operations) or <= number of sites (sequence operations), the float64 nearest to k/m, its predecessor and its successor; " +
-			"(4) ties: every 1-column alignment of 5..10 [6..12] rows over {A,-} (site operations, set {A}, ends x ignoreGaps x reverse) and every 1-row alignment of 5..10 [6..12] sites over {A,-} (sequence operations, character A), same cutoff family; " +
+			"(3b) sets with a repeated character ({A,A}, {A,a}, {A,W,A}) x 2^5 on every 1-column alignment of 1..3 rows and every 2x2 alignment over {A,a,-,W}; after sequence cleaning, lookups by name find exactly the kept sequences; (4) ties: every 1-column alignment of 5..10 [6..12] rows over {A,-} (site operations, set {A}, ends x ignoreGaps x reverse) and every 1-row alignment of 5..10 [6..12] sites over {A,-} (sequence operations, character A), same cutoff family; " +
 			"(5) ends mode: every 1-row alignment of 5..9 [6..10] sites over {A,-,W} and every 2-row alignment of 4..5 [4..7] sites over {A,-}: the three site operations, sets {-},{A},{A,W} x 2^5, cutoffs 0, 1/2, 1; " +
 			"(6) every 2x3 and 3x2 alignment over {A,a,-,W,w,O} [plus every 3x3, 2x4, 4x2 alignment over {A,-,W,O}]: all five operations, sets {A},{A,W} x 2^5, sequences with A x 2^3, cutoffs 0, 1/3, 1/2, 2/3, 1 [plus every 6x1 and 1x6 alignment over {A,a,-,W,O} with the configurations of (1)]. " +
 			"(7) command line: goalign clean sites / clean seqs (in process, files in a private directory) for --char GAP, MAJ, A, aW, A- (sites) and GAP, A, W, a (seqs) x every combination of --ends/--reverse/--ignore-case/--ignore-gaps/--ignore-n the command passes on x cutoffs 0, 1/2, 1, -1, 1.5, 1/3 x every 2x2 alignment over {A,a,-,W} [{A,a,-,W,w,O}] and 4 larger ones, both alphabets: output file, --positions and --positions-rm must equal what the library call with the same options returns (combinations the command documents as errors must be refused or agree). " +
@@ -1192,7 +1210,7 @@ func init() {
 			}
 			c12Cur = c12Acc{}
 			if cs.Op == "all" {
-				for _, pr := range []*c12Profile{c12ProfFull, c12ProfGrid, c12ProfEnds, c12ProfTieC, c12ProfTieR} {
+				for _, pr := range []*c12Profile{c12ProfFull, c12ProfGrid, c12ProfEnds, c12ProfTieC, c12ProfTieR, c12ProfDup} {
 					if pr.name == cs.Profile && len(cs.Seqs) > 0 && len(cs.Seqs[0]) > 0 {
 						c12RunAlignment(c, cs.Alpha, cs.Seqs, pr)
 						return
